@@ -127,6 +127,12 @@ func DrawDir(t *rt.Tape, caps []int) (cfg simnet.DirConfig, small bool) {
 	if cfg.Cap >= 0 && cfg.Cap <= 16 {
 		small = true
 	}
+	// one direction in eight: delivery pauses once, for seconds to a quarter of an hour, at a
+	// tape-chosen place of the stream (offsets are spread over the orders of magnitude)
+	if t.Choose(rt.SGen, 8) == 0 {
+		cfg.StallOff = uint64(t.Choose(rt.SGen, 1<<uint(4+t.Choose(rt.SGen, 16))))
+		cfg.StallFor = []time.Duration{2 * time.Second, 40 * time.Second, 15 * time.Minute}[t.Choose(rt.SGen, 3)]
+	}
 	return cfg, small
 }
 
@@ -143,6 +149,9 @@ func DescribeDir(c simnet.DirConfig) string {
 	capS := fmt.Sprint(c.Cap)
 	if c.Cap < 0 {
 		capS = "unbounded"
+	}
+	if c.StallFor > 0 {
+		lat += fmt.Sprintf(" stall=%v@%d", c.StallFor, c.StallOff)
 	}
 	if c.EmptyReads > 0 {
 		return fmt.Sprintf("cap=%s frag=%s lat=%s empty-reads=1/%d", capS, frag, lat, c.EmptyReads)
